@@ -236,6 +236,8 @@ func extractStopSites() {
 	var sites []stopSite
 	var events []stopEv
 	closedSet := map[string]bool{}
+	var wgAdds []wgAdd
+	var wgDones []wgDone
 	for _, rel := range stopFiles {
 		dir, base := splitRel(rel)
 		pi := loadPkg(dir)
@@ -254,6 +256,8 @@ func extractStopSites() {
 				continue
 			}
 			sites = append(sites, sitesOfFunc(pi, rel, fd)...)
+			as, ds := waitGroupsOfFunc(pi, rel, fd)
+			wgAdds, wgDones = append(wgAdds, as...), append(wgDones, ds...)
 			if isStopName(fd.Name.Name) && fd.Recv != nil {
 				nStop++
 				evs := stopEventsOf(pi, fd)
@@ -310,7 +314,16 @@ func extractStopSites() {
 	for _, c := range closed {
 		closedRefs = append(closedRefs, in.ref(c))
 	}
+	var was, wds []string
+	for _, a := range wgAdds {
+		was = append(was, fmt.Sprintf("  ⟨%s, %s, %s, %s, %s, %d⟩", in.ref(a.Fn), in.ref(a.Wg), lq(a.Count), lq(a.Release), lq(a.File), a.Line))
+	}
+	for _, d := range wgDones {
+		wds = append(wds, fmt.Sprintf("  ⟨%s, %s, %s, %d⟩", in.ref(d.Fn), in.ref(d.Wg), lq(d.File), d.Line))
+	}
 	in.emit(l)
+	l.sb.WriteString("/-- `wg.Add(count)` in `fn`; `release`: go-defer | loop-go-defer | go-done | timer-defer | none (see extract/waitgroups.go) -/\nstructure WgAdd where\n  fn : Nat\n  wg : Nat\n  count : String\n  release : String\n  file : String\n  line : Nat\n  deriving Repr\n\n")
+	l.sb.WriteString("/-- a `wg.Done()` that is not the top-level `defer` of a goroutine's function: an explicit hand-back on some path -/\nstructure WgDone where\n  fn : Nat\n  wg : Nat\n  file : String\n  line : Nat\n  deriving Repr\n\n")
 	l.sb.WriteString("structure Alt where\n  send : Bool\n  chan : Nat\n  deriving Repr, DecidableEq\n\n")
 	l.sb.WriteString("structure Site where\n  fn : Nat\n  recv : Nat\n  file : String\n  line : Nat\n  kind : String\n  alts : List Alt\n  hasDefault : Bool\n  deriving Repr\n\n")
 	l.sb.WriteString("/-- kind: close | wait | call -/\nstructure StopEv where\n  fn : Nat\n  kind : String\n  arg : Nat\n  deriving Repr, DecidableEq\n\n")
@@ -319,8 +332,10 @@ func extractStopSites() {
 	l.def("stopEvents", "List StopEv", "[\n"+strings.Join(evs, ",\n")+"]",
 		"close(x) / x.Wait() / x.Stop() / x.Broadcast() / x.Signal() calls of every Stop method, in source order")
 	l.def("chainServiceStop", "List Nat", "["+strings.Join(csStopRefs, ", ")+"]", "ChainService.Stop: its close/Wait/Stop calls in source order")
+	l.def("wgAdds", "List WgAdd", "[\n"+strings.Join(was, ",\n")+"]", "every WaitGroup.Add of the shutdown-relevant files and how its slot is released")
+	l.def("wgDones", "List WgDone", "[\n"+strings.Join(wds, ",\n")+"]", "explicit WaitGroup.Done calls (not the top-level defer of a goroutine)")
 	l.def("stopClosed", "List Nat", "["+strings.Join(closedRefs, ", ")+"]", "channels closed by some Stop method")
-	facts["stopsites"] = map[string]any{"sites": sites, "stopEvents": events, "chainServiceStop": csStop, "stopClosed": closed}
+	facts["stopsites"] = map[string]any{"wgAdds": wgAdds, "wgDones": wgDones, "sites": sites, "stopEvents": events, "chainServiceStop": csStop, "stopClosed": closed}
 	reportUndischarged(sites, closedSet)
 	fmt.Printf("extract: C17 %d blocking sites in %d files; ChainService.Stop order: %s\n", len(sites), len(stopFiles), strings.Join(csStop, " ; "))
 }
